@@ -68,6 +68,9 @@ class Executor(ExprMixin, StmtMixin, CallMixin, ContractMixin):
         self.cur_line = None
         self.cur_state = None
         self.contract_env = None
+        self.heap_reads = None
+        self.exists_witness = None
+        self._spec_deps = {}
         self.asserts_seen = set()
         self.stmt_ordinals = {}
 
@@ -170,6 +173,15 @@ class Executor(ExprMixin, StmtMixin, CallMixin, ContractMixin):
         st.env = env
         for v in env.values():
             self.assume_type_facts(st, v)
+        if 'self' in env and fs.cls is not None and isinstance(env['self'].ty, TRef):
+            # this body runs only for instances whose class does not override the method
+            mname = fnode.name
+            cls = env['self'].ty.cls
+            if self.classes.is_real(cls):
+                runs = [q for q in self.classes.subclasses(cls)
+                        if self.classes.find_method(q, mname)[0] == fs.cls]
+                tag = self.cls_of(env['self'].t)
+                st.assume(z3.Or([tag == self.classes.cid(q) for q in runs]) if runs else z3.BoolVal(True))
         return st
 
     def generate(self, qualname, canary=False):
@@ -249,13 +261,25 @@ class Executor(ExprMixin, StmtMixin, CallMixin, ContractMixin):
             ob = Obligation(self.fn_name, 'canary', e.flow, e.pc + e.facts, z3.BoolVal(False), e.trail)
             self.obls.append(ob)
 
+    def set_witness(self, st, wit):
+        if not wit:
+            self.exists_witness = None
+            return
+        self.exists_witness = {}
+        for var, expr in wit.items():
+            try:
+                self.exists_witness[var] = self.eval_contract_expr(st, expr, None, self.pre_state, want_bool=False)
+            except OutsideSubset:
+                self.exists_witness = None
+                return
+
     def result_value(self, st, c, node):
         rty = parse_type(c.returns)
         r = st.ret if st.flow == 'return' else NONE
         if isinstance(r, Place):
             r = self.read_place(st, r)
         try:
-            return self.coerce(st, self.need_value(r), rty)
+            return self.coerce_checked(st, self.need_value(r), rty, node, 'result')
         except TypeMismatch as ex:
             self.oblige(st, False, 'type', 'result', node=node,
                         info={'claim': 'result has the declared type %s (got %s)' % (rty, r.ty)})
@@ -263,6 +287,11 @@ class Executor(ExprMixin, StmtMixin, CallMixin, ContractMixin):
 
     def check_exit(self, st, c, fs, is_init):
         node = fs.node
+        for h in c.hints:
+            try:
+                self.eval_contract_expr(st, h, None, self.pre_state, want_bool=False)
+            except OutsideSubset:
+                pass          # a hint may mention locals that do not exist on this path
         if st.flow in ('normal', 'return'):
             res = self.result_value(st, c, node)
             st.flow = 'normal'
@@ -272,11 +301,15 @@ class Executor(ExprMixin, StmtMixin, CallMixin, ContractMixin):
             # a deterministic raises clause must not have applied
             for r in c.raises:
                 if r.when is not None:
+                    self.set_witness(st, r.witness)
                     t = self.eval_contract_expr(self.pre_state, r.when, None, None, use_env=self.entry_env, sink=st)
+                    self.exists_witness = None
                     self.oblige(st, z3.Not(t), 'post', 'no-raise:' + r.label, carries=r.carries, node=node,
                                 info={'claim': 'returns normally only if not (%s)' % r.when})
             for cl in c.ensures:
+                self.set_witness(st, cl.witness)
                 t = self.eval_contract_expr(st, cl.expr, None, self.pre_state, use_env=env)
+                self.exists_witness = None
                 self.oblige(st, t, 'post', cl.label, carries=cl.carries, node=node,
                             info={'claim': 'postcondition: ' + cl.expr})
             if 'self' in self.entry_env:
